@@ -321,7 +321,7 @@ func c05Oracle(sp *c05Spec, out *c05Out) *c05Verdict {
 					}
 				}
 				switch {
-				case open != "" && sp.NeverReturn:
+				case open != "" && (sp.NeverReturn || (sp.SlowStop && strings.HasPrefix(open, "slow"))):
 					// the timeout path itself: nothing demanded
 				case open != "":
 					v.Inconcl = append(v.Inconcl, fmt.Sprintf("case %d (%s): stop timeout of %s fired while %s had not returned (slow machine?)", sp.Case, sp.Class, m, open))
